@@ -199,7 +199,7 @@ class KwPack:
         self.known = dict(known or {})
 
 
-STD_MODULES = ('queue', 'threading', 'time', 'asyncio', 'concurrent', 'multiprocessing', 'os', 'sys', 'logging', 'traceback', 'random',
+STD_MODULES = ('queue', 'threading', 'time', 'asyncio', 'concurrent', 'multiprocessing', 'os', 'sys', 'logging', 'traceback', 'random', 'signal',
                'itertools', 'functools', 'errno', 'inspect', 'contextlib', 'pickle', 'util')
 
 
@@ -1073,6 +1073,17 @@ class Exec:
     st_ImportFrom = st_Import
 
     def st_Delete(self, n, st):
+        # `del container[key]` on a modelled container is an effect; `del name` / anything else is refcycle clean-up (dropped, noted)
+        if len(n.targets) == 1 and isinstance(n.targets[0], ast.Subscript):
+            t = n.targets[0]
+
+            def f(s, base):
+                b = unbox_handle(self, base)
+                if isinstance(b, Obj) and hasattr(b, 'delitem'):
+                    return self.bind(self.ev(t.slice, s), lambda s2, idx: b.delitem(self, s2, idx, n))
+                self.note_ignored(n, '`del` statement dropped (refcycle clean-up)')
+                return [('ok', s, None)]
+            return self.lift(self.bind(self.ev(t.value, st), f))
         self.note_ignored(n, '`del` statement dropped (refcycle clean-up)')
         return [('normal', st, None)]
 
@@ -1927,7 +1938,26 @@ class RangeIter(Obj):
         return outs
 
 
+def _b_iter(ex, e, st):
+    def f(s, v):
+        v = unbox_handle(ex, v)
+        if isinstance(v, Obj) and hasattr(v, 'iter_start'):
+            return v.iter_start(ex, s, e)
+        if isinstance(v, Obj) and hasattr(v, 'pull'):
+            return [('ok', s, v)]
+        if is_z3(v) and v.sort() == SeqV:
+            it = SeqIter(ex, v)
+            s = s.fork()
+            it.init(s)
+            return [('ok', s, it)]
+        raise Unsupported(f'iter() on {v!r}')
+    if len(e.args) != 1:
+        raise Unsupported('iter(callable, sentinel)')
+    return ex.bind(ex.ev(e.args[0], st), f)
+
+
 BUILTINS = {
+    'iter': _b_iter,
     'len': _b_len, 'isinstance': _b_isinstance, 'max': _b_max, 'min': lambda ex, e, st: _b_max(ex, e, st, False),
     'next': _b_next, 'list': _b_list, 'getattr': _b_getattr, 'print': _b_print, 'int': _b_int, 'id': _b_id, 'zip': _b_zip,
     'enumerate': _b_enumerate, 'range': _b_range, 'reversed': _b_reversed,
